@@ -839,8 +839,8 @@ impl Sim for SrvSim {
     }
     fn runs(_p: &str, tier: Tier) -> u64 {
         match tier {
-            Tier::Quick => 20_000,
-            Tier::Thorough => 1_500_000,
+            Tier::Quick => 100_000,
+            Tier::Thorough => 5_000_000,
         }
     }
     fn meta(_p: &str) -> SimMeta {
@@ -850,7 +850,7 @@ impl Sim for SrvSim {
             stub: vec!["OS threads → simulated threads (nested LocalSets polled by the seeded scheduler)".into(), "TCP listener and sockets → in-memory pipes (cfg(pavex_verif) seam)".into(), "clients → raw HTTP/1.1 simulator tasks".into(), "wall clock and OS entropy → libc-level seams".into()],
             assumptions: vec!["threads interleave at awaits and at the hooked synchronous preemption points, not between arbitrary instructions".into(), "class A ('received before the call') = dispatched to a worker and fully written before the call, and either never polled by the worker yet (queued) or its head already read; bytes that reach an already-served idle connection but are still unread when the worker processes the shutdown are hyper's documented idle-connection race and are only counted (probe_unread_bytes_on_served_connection_at_call)".into(), "HTTP/1.1 only".into()],
             fault_counters: vec!["fault_client_disconnect_after_request".into(), "fault_client_disconnect_mid_response".into(), "fault_stalled_reader".into(), "fault_handler_panic".into(), "preemptions_taken".into()],
-            expected_probes: vec!["probe_shutdown_overtook_queued_connection".into(), "probe_shutdown_with_handler_in_flight".into(), "probe_timeout_elapsed".into(), "probe_connect_after_return".into(), "probe_forced_with_inflight".into(), "probe_waiter_resolved".into(), "probe_second_call_resolved".into(), "class_a_requests".into()],
+            expected_probes: vec!["probe_all_workers_busy_drop".into(), "probe_shutdown_overtook_queued_connection".into(), "probe_shutdown_with_handler_in_flight".into(), "probe_timeout_elapsed".into(), "probe_connect_after_return".into(), "probe_forced_with_inflight".into(), "probe_waiter_resolved".into(), "probe_second_call_resolved".into(), "class_a_requests".into()],
         }
     }
 
@@ -931,6 +931,17 @@ impl Sim for SrvSim {
                 weights.push(("driver".to_string(), 32));
             }
             _ => {}
+        }
+        // overload arm: more connections than the workers' inboxes can hold while the workers are
+        // starved, so that the acceptor has to move on to the next worker / drop connections
+        if rng.chance(1, 40) {
+            let workers = rng.usize(1, 2);
+            let n = workers * 15 + rng.usize(1, 6);
+            let conns = (0..n)
+                .map(|_| ConnScript { when: When::At { ns: 0 }, kind: ConnKind::Full, handler_ms: rng.range(0, 3), fault: ConnFault::None, cap_in: 65_536, cap_out: 65_536, listener: 0 })
+                .collect();
+            let weights = vec![("pavex-worker".to_string(), 1), ("pavex-acceptor".to_string(), 64), ("client".to_string(), 24), ("driver".to_string(), 1)];
+            return Script { workers, listeners: 1, conns, shutdown, weights, preempt_den: 1000, net_preempt: false };
         }
         Script { workers, listeners, conns, shutdown, weights, preempt_den: *rng.pick(&[3, 4, 8, 8, 16, 1000]), net_preempt: rng.chance(1, 3) }
     }
